@@ -259,7 +259,16 @@ def rule_r6(ctx, rid="C11.R6"):
                             % (norm(h.ast.type) if h.ast.type is not None else ""), hr.loc(h.ast))
 
 
-RULES = [rule_r1, rule_r2, rule_r3, rule_r4, rule_r5, rule_r6]
+def rule_r7(ctx):
+    """Shared with C13.R6 (teardown clears `connected` inside the lock, before waking a paused worker - `connected` is the
+    worker-side guard of the next pipelined request) and C01.R7 (the parser's close verdict reaches the response
+    builder on every version path - otherwise the connection is announced and kept alive)."""
+    from . import c01, c13
+    c13.rule_r6(ctx, rid="C11.R7")
+    c01.rule_r7(ctx, rid="C11.R7")
+
+
+RULES = [rule_r1, rule_r2, rule_r3, rule_r4, rule_r5, rule_r6, rule_r7]
 
 from ..selftest import M, T, V  # noqa: E402
 
